@@ -149,7 +149,7 @@ def xhtml_sequences(t0: int, t1: int, br: bool) -> bool:
 def rle_entries_small(n: int, x0: int, x1: int, x2: int, hexa: bool) -> bool:
     """
     pre: 1 <= n <= 3
-    pre: -2 <= x0 <= 2 and -2 <= x1 <= 2 and -2 <= x2 <= 2
+    pre: -1 <= x0 <= 2 and -1 <= x1 <= 2 and -1 <= x2 <= 2
     post: _
     """
     return _rle_entries(n, x0, x1, x2, 0, hexa)
